@@ -112,6 +112,7 @@ class Context(object):
         self.pending = []   # sources selected by the last poll, not yet dispatched
         self.escaped = []   # Escaped records not yet consumed by a monitor
         self.warnings = []  # GLib-CRITICAL style warnings
+        self.issued = set()  # source ids handed out by this context
         self.quit_requested = False
 
     # ---- registration (called by the code under test through the module API)
@@ -123,6 +124,7 @@ class Context(object):
         # (e.g. released from a __del__) can never hit a source of a live one
         global _NEXT_SOURCE_ID
         src = Source(SourceId(_NEXT_SOURCE_ID), kind, priority, func, args)
+        self.issued.add(_NEXT_SOURCE_ID)
         _NEXT_SOURCE_ID += 1
         self.next_id += 1
         self.sources.append(src)
@@ -136,6 +138,11 @@ class Context(object):
 
     def remove(self, sid):
         src = self.find(sid)
+        if src is None and int(sid) not in self.issued:
+            # an id of some other (discarded) world, released from a finaliser that happens
+            # to run now: nothing of this context is concerned, and nothing may be recorded
+            # (the moment a finaliser runs is not under the harness' control)
+            return False
         if src is None:
             self.warnings.append('Source ID %d was not found when attempting to remove it' % int(sid))
             return False
